@@ -744,6 +744,29 @@ def rely_havoc(ex, st, fr, what):
             if ty is None:
                 raise Unsupported(f'rely protects unknown field {loc}')
             keep.append(('field', o, f, ty, h.load(o.t, f, ty)))
+    # containers held only by local variables of this activation (temporaries such as a sorted copy being
+    # iterated) are out of reach of the callee: their contents survive the call
+    def _locals():
+        for name, v in st.loc.items():
+            if isinstance(v, execu._IterBox) and isinstance(v.itv, tuple) and len(v.itv) > 1:
+                v = v.itv[1]
+            if isinstance(v, V) and v.kind == 'ref' and v.ty.cls in ('list', 'dict') and v.ty.exact:
+                yield v
+    seen_local = set()
+    for v in _locals():
+        if v.t.get_id() in seen_local or any(k[1].t.eq(v.t) for k in keep if k[0] in ('list', 'dict')):
+            continue
+        seen_local.add(v.t.get_id())
+        if ex.task_self is not None and st.old is not None and \
+                z3.is_true(z3.simplify(st.old.heap.alive(v.t))):
+            continue
+        fresh_local = st.old is not None and not ex.feasible(st, st.old.heap.alive(v.t))
+        if not fresh_local:
+            continue
+        if v.ty.cls == 'list':
+            keep.append(('list', v, h.llen(v.t), h.larrs(v.t, v.ty.elem)))
+        else:
+            keep.append(('dict', v, (h.ddom(v.t), h.dlen(v.t), h.dkeys(v.t)), h.darrs(v.t, v.ty.val)))
     old = st.fork()
     old.loc = {'self': self_v}
     old.pure = True
